@@ -13,7 +13,8 @@ EXPLANATION = (
     "'best' -> Fxp(x), else raise; keys = Config's list); R6 unary -, +, abs rebuild raw codes in the operand's own format; fresh status on like=/template "
     "construction so stale flags are not inherited. Residual: raw and repr methods producing bit-identical doubles."
     ' Added after the third round of seeded changes: R3b with out_like= the constructor receives no operand-derived signedness or size; both range tests on every store (C04.R1); route selection (C07.R8); transparent numpy dispatch (C15.R5).'
-    ' Added after the fourth round of seeded changes: C20.R8 objects carry only the documented attributes and no function writes module-level containers (no caches / memos that go stale) (a memo of converted constants keyed by value alone ignores the modes it was converted under).')
+    ' Added after the fourth round of seeded changes: C20.R8 objects carry only the documented attributes and no function writes module-level containers (no caches / memos that go stale) (a memo of converted constants keyed by value alone ignores the modes it was converted under).'
+    ' Added after the fifth round of seeded changes: C20.R8 also forbids mutable default arguments and private attributes hung on operands (x._cache, x.__dict__[...]).')
 ASSUMPTIONS = ["the sink (constructor/set_val) quantizes as decided under C01 with the configuration it is given"]
 TRUSTED = ["CPython ast", "scale typing rules of DESIGN A6"]
 
